@@ -112,8 +112,10 @@ async def _body(name, spec):
                 raise
         log('cancel_done', name)
         raise
-    if spec.get('out', 'ret') == 'raise':
-        exc = Boom(name)
+    out = spec.get('out', 'ret')
+    if out in ('raise', 'raise_empty'):
+        # 'raise_empty': an exception whose message is the empty string
+        exc = Boom(name) if out == 'raise' else Boom()
         log('raise', name, exc)
         raise exc
     val = Val(name)
@@ -229,6 +231,24 @@ class Built:
         self.parent = {}       # name -> name of enclosing scheduler (None: top)
         self.children = {}     # scheduler name -> [names]
         self.top = self._build(scn['tree'], None)
+        # optional pre-run history: extra requirement edges are added, the
+        # graph is queried (which computes whatever the library caches), and
+        # the edges are removed again; the run must then behave as if they
+        # had never been there
+        pre = scn.get('pre')
+        if pre:
+            for r, j in pre:
+                self.obj[j].requires(self.obj[r])
+            for name in self.children:
+                sch = self.obj[name]
+                list(sch.exit_jobs())
+                sch.check_cycles()
+                for k in list(sch.jobs):
+                    list(sch.successors(k))
+                    sch.predecessors_upstream(k)
+            self.top.list()
+            for r, j in pre:
+                self.obj[j].requires(self.obj[r], remove=True)
 
     def _build(self, spec, parent):
         name = spec['name']
